@@ -31,11 +31,12 @@ RULE = ('breadth-first over every sequence of enabled edits to the depth bound f
         'connection list with distances/area/cosine/direction) differs; a transition is one edit executed on the real '
         'grid and on the reference model with the invariant and the refinement relation evaluated')
 ASSUMPTIONS = [
-    'contract: add_block replaces only blocks that have no connections; add_rocktype replaces only rock types no block '
-    'uses; delete_rocktype only of unused rock types (the documentation does not say what becomes of the dependants)',
+    'add_block with the name of a connected block replaces it (documented) and the connections must then join the new object; '
+    'contract: add_rocktype replaces only rock types no block uses; delete_rocktype only of unused rock types (the documentation does not say what becomes of the dependants)',
     'contract: a block is added only with a rock type registered in the grid; connections join two distinct present blocks',
-    'contract: reorder is given complete lists (every block / every connection exactly once, a pair reversed only when '
-    'the reversed name does not denote another connection); demote_block only existing names',
+    'reorder lists name existing blocks / connections at most once (a pair reversed only when the reversed name does not denote '
+    'another connection); incomplete lists - also reorder(geo=) on a grid holding more than the geometry, e.g. after minc - must '
+    'lose nothing: unnamed objects stay after the named ones, or the call refuses and leaves the grid as it was; demote_block only existing names',
     'contract: rename_blocks maps are one-to-one on the present blocks and their image avoids present blocks that are '
     'not themselves renamed (keys that name no block are allowed and ignored)',
     'minc with a selection that yields a matrix block name twice (block listed twice, two names differing in the first character, '
@@ -78,7 +79,7 @@ SPARE = '  e 1'
 ROCKS = ['rock1', 'rock2']
 VOL = {'a': 1.0, 'b': 2.0, 'c': 4.0, 'd': 8.0, 'e': 16.0, 'p': 0.25, 'q': 0.125}
 MINC_FRACTIONS = [[0.1, 0.9], [0.2, 0.3, 0.5]]
-SEEDS = ['chain3', 'ring4', 'geo_atm0', 'geo_atm1', 'geo_atm2', 'datfile']
+SEEDS = ['chain3', 'ring4', 'geo_atm0', 'geo_atm1', 'geo_atm2', 'datfile', 'transferred']
 
 _quiet = io.StringIO()
 
@@ -335,6 +336,8 @@ _GEO = {}
 
 
 def seed_geo(seed):
+    if seed == 'transferred':
+        seed = 'geo_atm0'
     if seed not in _GEO:
         import mulgrids
         with quiet():
@@ -376,6 +379,25 @@ def build_seed(seed):
     elif seed.startswith('geo_atm'):
         with quiet():
             g = t2grids.t2grid().fromgeo(seed_geo(seed))
+        m = model_from_grid(g)
+        uni = [blk.name for blk in g.blocklist[:4]] + ['  z 9']
+    elif seed == 'transferred':
+        # the grid of a model that took its rock types from another model (t2data.transfer_from on the same
+        # geometry): another documented route by which a user's grid comes into being
+        import t2data
+        geo = seed_geo('geo_atm0')
+        with quiet():
+            src = t2data.t2data()
+            src.grid = t2grids.t2grid().fromgeo(geo)
+            for r in ROCKS:
+                src.grid.add_rocktype(t2grids.rocktype(name=r))
+            for i, blk in enumerate(src.grid.blocklist[1:]):
+                blk.rocktype = src.grid.rocktype[ROCKS[i % 2]]
+            dat = t2data.t2data()
+            dat.grid = t2grids.t2grid().fromgeo(geo)
+            with core.timelimit(60):
+                dat.transfer_from(src, geo, geo)
+            g = dat.grid
         m = model_from_grid(g)
         uni = [blk.name for blk in g.blocklist[:4]] + ['  z 9']
     else:
@@ -475,11 +497,13 @@ def conn_lists(conns, reduced):
 
 
 def geo_compatible(state):
-    if not state.seed.startswith('geo_atm'):
+    """reorder(geo=) is meaningful when the grid holds every block and connection of the geometry (it may
+    hold more, e.g. MINC matrix blocks: those are not named by the geometry's lists)."""
+    if not (state.seed.startswith('geo_atm') or state.seed == 'transferred'):
         return False
     geo = seed_geo(state.seed)
     m = state.model
-    return (sorted(geo.block_name_list) == sorted(m.blocks) and len(m.conns) == len(geo.block_connection_name_list) and
+    return (all(n in m.binfo for n in geo.block_name_list) and
             all((tuple(c) in m.cinfo) != (tuple(c[::-1]) in m.cinfo) for c in geo.block_connection_name_list))
 
 
@@ -546,6 +570,22 @@ def readd_ops(state):
     return ops
 
 
+def partial_reorders(m):
+    """reorder() with lists that do not name every block / connection."""
+    ops = []
+    bl, cn = list(m.blocks), [list(c) for c in m.conns]
+    if len(bl) > 1:
+        ops.append(['reorder', bl[:-1][::-1], None])
+    if len(cn) > 1:
+        ops.append(['reorder', None, cn[1:]])
+        rev_ok = [i for i, c in enumerate(m.conns) if c[::-1] not in m.conns]
+        if rev_ok:
+            ops.append(['reorder', None, [cn[rev_ok[-1]][::-1]]])
+    if len(bl) > 1:
+        ops.append(['reorder', bl[-1:], None])
+    return ops
+
+
 def ops_of(state, depth, reduced=False):
     """Enabled operations, simplest first.  'reduced' shrinks the big argument domains (renames to
     transpositions / 3-cycles / shift-to-spare, permutations to transpositions) for a deeper level;
@@ -577,6 +617,9 @@ def ops_of(state, depth, reduced=False):
         if n not in present or not m.cons_of(n):
             for r in m.rocks[:2]:
                 ops.append(['add_block', n, r])
+    for n in uni[:4]:
+        if n in present and m.cons_of(n):             # a new object under the name of a connected block
+            ops.append(['add_block', n, ([r for r in m.rocks if r != m.binfo[n]['rock']] + [m.binfo[n]['rock']])[0]])
     for n in upres:
         ops.append(['delete_block', n])
     ops.append(['delete_block', '  x 7'])
@@ -604,6 +647,7 @@ def ops_of(state, depth, reduced=False):
         for c in cl:
             ops.append(['reorder', None, c])
         ops.append(['reorder', present[::-1], cl[-1]])
+    ops += partial_reorders(m)
     if geo_compatible(state):
         ops.append(['reorder_geo'])
     # rename
@@ -659,6 +703,10 @@ def ops_reduced(state):
         if n not in present and m.rocks:
             ops.append(['add_block', n, m.rocks[0]])
             break
+    for n in uni[:4]:
+        if n in present and m.cons_of(n):
+            ops.append(['add_block', n, m.rocks[-1]])
+            break
     for n in upres:
         ops.append(['delete_block', n])
     if len(present) > 1:
@@ -679,6 +727,7 @@ def ops_reduced(state):
         if len(m.conns) > 1:
             ops.append(['reorder', present[::-1], [list(c[::-1]) if j in rev_ok else list(c)
                                                    for j, c in enumerate(m.conns)][::-1]])
+    ops += partial_reorders(m)[:2]
     if geo_compatible(state):
         ops.append(['reorder_geo'])
     maps = [mp for mp in rename_maps(present, uni, True) if mp]
@@ -717,6 +766,10 @@ def common_rock_in_use(model, which):
     return any(r in model.rocks and model.rock_in_use(r) for r in PARTNER_MODELS[which][1].rocks)
 
 
+def reorder_partial(m, op):
+    return bool((op[1] and len(op[1]) < len(m.blocks)) or (op[2] and len(op[2]) < len(m.conns)))
+
+
 def op_class(state, op):
     """Input class of an operation for the violation signature (computed on the state BEFORE the call)."""
     m = state.model
@@ -732,9 +785,13 @@ def op_class(state, op):
             parts.append('blocks')
         if op[2]:
             parts.append('connections-reversed' if any(tuple(c) not in m.cinfo for c in op[2]) else 'connections')
-        return '+'.join(parts)
+        return '+'.join(parts) + ('-incomplete-list' if reorder_partial(m, op) else '')
+    if k == 'reorder_geo':
+        geo = seed_geo(state.seed)
+        return 'grid-holds-more-than-the-geometry' if (len(geo.block_name_list) < len(m.blocks) or
+                                                       len(geo.block_connection_name_list) < len(m.conns)) else 'any'
     if k == 'add_block':
-        return 'replace-unconnected' if op[1] in m.blocks else 'new'
+        return ('replace-connected' if m.cons_of(op[1]) else 'replace-unconnected') if op[1] in m.blocks else 'new'
     if k == 'delete_block':
         return 'absent' if op[1] not in m.blocks else ('connected' if m.cons_of(op[1]) else 'unconnected')
     if k == 'add_connection':
@@ -992,6 +1049,10 @@ def step2(state, op, notes=None):
             raise
         except Exception as e:
             err = e
+    if err is not None and op[0] == 'reorder' and reorder_partial(state.model, op):
+        # the documentation is silent on incomplete lists: refusing them is as good as keeping the unnamed
+        # objects, provided the grid is left as it was (judged below against the untouched model)
+        op, err = ['reorder', None, None], None
     try:
         extra = apply_model(state, op, None if err else result, notes)
     except ModelError:
